@@ -89,11 +89,19 @@ def TErr.name : TErr → String
   | .binOpError _ => "BinOpError" | .unOpError _ => "UnOpError" | .outOfBounds => "OutOfBounds" | .other => "Other"
 
 /-- a failure is *data dependent* (allowed after a successful type check) iff it is an out-of-range
-index or an operator failure whose cause is division by zero / overflow (or the panic). -/
+index or an `Other` (division by zero, integer overflow - since /repo ab600c7 `as_primitive` reports these two
+as `Other` and keeps `BinOpError` / `UnOpError` for type failures -, a fractional or negative number in an
+integer position, a size cap, a redeclaration, bounds out of order, …). -/
 def TErr.dataDependent : TErr → Bool
-  | .binOpError c | .unOpError c => c == .divisionByZero || c == .overflow || c == .panic
   | .outOfBounds | .other => true
   | _ => false
+
+/-- `as_primitive`'s report of a failed operator application (since ab600c7): a failure of the VALUES is
+`Other`, a failure of the kinds keeps the operator variant (with its cause as ghost information) -/
+def opFailure (wrap : OpErr → TErr) (c : OpErr) : TErr :=
+  match c with
+  | .divisionByZero | .overflow => .other
+  | c => wrap c
 
 /-! ### the expression core: literals, unary and binary operators -/
 
@@ -123,7 +131,7 @@ def PExp.eval {α : Type} [Arith α] : PExp α → Except TErr (Prim α)
     | .error err => .error err
     | .ok v => match applyUnary op v with
       | .ok r => .ok r
-      | .error c => .error (.unOpError c)
+      | .error c => .error (opFailure .unOpError c)
   | .bin op a b =>
     match a.eval with
     | .error err => .error err
@@ -131,7 +139,7 @@ def PExp.eval {α : Type} [Arith α] : PExp α → Except TErr (Prim α)
       | .error err => .error err
       | .ok y => match applyBinary x op y with
         | .ok r => .ok r
-        | .error c => .error (.binOpError c)
+        | .error c => .error (opFailure .binOpError c)
 
 /-- every literal is a proper value (no literal of kind `Any`, scalars are not wrapped in `other`) -/
 def PExp.proper {α : Type} : PExp α → Bool
@@ -172,8 +180,8 @@ def fnTypeCheck (name : String) (args : List Kind) : Except TErr Unit :=
     else if !(i == .boolean) then .error .wrongArgument else .ok ()
   | "range", _ => .error .wrongFunctionSignature
   | "union", as | "intersection", as | "difference", as =>
-    -- signature = (kind of the first argument, twice)
-    let first := match as with | a :: _ => a | [] => .iter .any
+    -- signature = (kind of the first argument, twice); since /repo 6608a36 only an ITERABLE first argument sets it
+    let first := match as with | a :: _ => if a.isIter then a else .iter .any | [] => .iter .any
     defaultTypeCheck as [first, first]
   | "nodes", as | "V", as | "edges", as | "E", as => defaultTypeCheck as [.graph]
   | "neigh_edges", as | "N", as => defaultTypeCheck as [.node]
@@ -282,8 +290,10 @@ def refinesAll : List Kind → List Kind → Bool
   | d :: ds, s :: ss => refines d s && refinesAll ds ss
   | _, _ => false
 
-/-- the builtins whose static signature covers their dynamic argument conversions -/
+/-- the builtins whose static signature covers their dynamic argument conversions: all of `make_std()`
+(the three set functions since /repo 6608a36) -/
 def soundBuiltins : List String :=
-  ["len", "enumerate", "enum", "zip", "range", "nodes", "V", "edges", "E", "neigh_edges", "N", "neigh_edges_of", "N_of"]
+  ["len", "enumerate", "enum", "zip", "range", "nodes", "V", "edges", "E", "neigh_edges", "N", "neigh_edges_of", "N_of",
+   "union", "intersection", "difference"]
 
 end Rooc.Pre
